@@ -187,6 +187,48 @@ def _install_fs_seam(comm, scratch, state):
         setattr(osp, name, wrap(name))
 
 
+# ----------------------------------------------------------------------------------------
+# reach probe (off unless ESRSIM_REACH_DIR is set): which source lines of esr/ were executed
+# ----------------------------------------------------------------------------------------
+_REACH = {'hits': set(), 'tool': 4}
+
+
+def _reach_start():
+    """Records every (file, line) of the farm's esr package once, via sys.monitoring LINE events that disable
+    themselves after the first hit - no PRNG draw, no clock read, no influence on scheduling."""
+    d = os.environ.get('ESRSIM_REACH_DIR')
+    if not d or not hasattr(sys, 'monitoring'):
+        return
+    mon = sys.monitoring
+    hits = _REACH['hits']
+
+    def on_line(code, line):
+        fn = code.co_filename
+        k = fn.find('/pkg/esr/')
+        if k >= 0:
+            hits.add((fn[k + 5:], line))
+        return mon.DISABLE
+    try:
+        mon.use_tool_id(_REACH['tool'], 'esrsim-reach')
+        mon.register_callback(_REACH['tool'], mon.events.LINE, on_line)
+        mon.set_events(_REACH['tool'], mon.events.LINE)
+    except Exception:
+        pass
+
+
+def _reach_dump(rank):
+    d = os.environ.get('ESRSIM_REACH_DIR')
+    if not d or not _REACH['hits']:
+        return
+    try:
+        os.makedirs(d, exist_ok=True)
+        with open('%s/%d-%d.txt' % (d, os.getpid(), rank), 'w') as f:
+            for fn, ln in sorted(_REACH['hits']):
+                f.write('%s:%d\n' % (fn, ln))
+    except Exception:
+        pass
+
+
 def child_main(rank, size, rfd, wfd, spec, scratch, pkgdir):
     status, tb, exc_info = 'ok', None, None
     report = {}
@@ -199,6 +241,7 @@ def child_main(rank, size, rfd, wfd, spec, scratch, pkgdir):
         sys.path.insert(0, pkgdir)
         sys.dont_write_bytecode = True
         ticker.install(spec.get('tick_modules') or [])
+        _reach_start()
         plan = (spec.get('plan') or {})
         plan = plan.get(rank, plan.get(str(rank), {})) or {}
         ticker.CLOCK.plan = {(k if k == '*' else int(k)): tuple(v) for k, v in plan.items()}
@@ -239,6 +282,7 @@ def child_main(rank, size, rfd, wfd, spec, scratch, pkgdir):
                         text=(inner.line or '').strip() if inner else None)
     state['on'] = False
     sys.settrace(None)
+    _reach_dump(rank)
     try:
         sys.stdout.flush()
     except Exception:
